@@ -56,7 +56,9 @@ def takePkt (s : Session) : Session × Option (Nat × Recv) :=
 /-- `SessionData::handle_packet` on the session. -/
 def handle (s : Session) (p : Recv) : Session × Except Err Bool :=
   let (d, rt, r) := handlePacket s.data s.rt p
-  ({ s with data := d, rt := rt }, r)
+  -- ghost: the packet and what its handling appended to the control queue
+  ({ s with data := d, rt := rt,
+            inlog := s.inlog ++ [{ pkt := some p, acks := (d.outbound.control.drop s.data.outbound.control.length).map PendingControl.action }] }, r)
 
 /-- What the CONNACK property loop accumulates: send quota, max send quota, Maximum QoS, Maximum
 Packet Size, keep-alive (ms), assigned client identifier. -/
@@ -100,7 +102,10 @@ def activate (s : Session) (sp : Bool) (block : Bytes) (now : Nat) : Session × 
                         deficit := decide (sq < s.data.outbound.inflightPublishes) }
     let s := { s with rt := rt, clientId := cid.getD s.clientId,
                       data := { s.data with sessionPresent := true, everAccepted := true, halfReset := false,
-                                            assignedId := cid.or s.data.assignedId } }
+                                            assignedId := cid.or s.data.assignedId },
+                      -- ghost: the inbound log restarts with what is still queued from earlier connections
+                      inlog := [{ pkt := none, acks := s.data.outbound.control.map PendingControl.action }],
+                      rmark := s.data.outbound.nextRser }
     let rt := (s.rt.noteOutboundActivity now)
     ({ s with rt := { rt with pingTimeout := none } }, .ok ())
 
